@@ -17,9 +17,13 @@ package connect
 //@   assigns nothing
 //@   ensures res == codeText(c)                                   // label: text
 
+// Connect protocol, "Error codes": the HTTP status of a failed unary call.
+//@ spec connectHTTPStatus(c int) int = if c == 1 then 408 else if c == 2 then 500 else if c == 3 then 400 else if c == 4 then 408 else if c == 5 then 404 else if c == 6 then 409 else if c == 7 then 403 else if c == 8 then 429 else if c == 9 then 412 else if c == 10 then 409 else if c == 11 then 400 else if c == 12 then 404 else if c == 13 then 500 else if c == 14 then 503 else if c == 15 then 500 else if c == 16 then 401 else 500
 //@ func connectCodeToHTTP(code) res
 //@   tags C18, C02, C05
+//@   assigns nothing
 //@   ensures 400 <= res && res <= 599                             // label: status-4xx-5xx
+//@   ensures res == connectHTTPStatus(code)                       // label: the-protocol's-table
 
 //@ spec isCodeName(s seq) bool = s == "canceled" || s == "unknown" || s == "invalid_argument" || s == "deadline_exceeded" || s == "not_found" || s == "already_exists" || s == "permission_denied" || s == "resource_exhausted" || s == "failed_precondition" || s == "aborted" || s == "out_of_range" || s == "unimplemented" || s == "internal" || s == "unavailable" || s == "data_loss" || s == "unauthenticated"
 
@@ -890,15 +894,17 @@ package connect
 //@ trusted func AnyRequest.Header(r) res
 
 //@ func (*recoverHandlerInterceptor).WrapStreamingHandler$1(ctx, conn) retErr
-//@   tags C19
-//@   requires deref(i) != nil && deref(next) != nil && deref(i).handle != nil
+//@   tags C19, C12
+//@   assert@call(field:recoverHandlerInterceptor.handle#1): arg0 == ctx && arg1.Procedure == callres("StreamingHandlerConn.Spec", 1).Procedure && arg1.StreamType == callres("StreamingHandlerConn.Spec", 1).StreamType && arg1.IsClient == callres("StreamingHandlerConn.Spec", 1).IsClient && arg2 == callres("StreamingHandlerConn.RequestHeader", 1)   // label: the-recovery-function-sees-the-call's-spec-and-request-headers   // tags: C12, C19
+//@   requires conn != nil && deref(i) != nil && deref(next) != nil && deref(i).handle != nil
 //@   assigns everything, handleCalls(), handleArg()
 //@   ensures !panicked("(*recoverHandlerInterceptor).WrapStreamingHandler$1.next", 1) ==> retErr == callres("(*recoverHandlerInterceptor).WrapStreamingHandler$1.next", 1) && handleCalls() == old(handleCalls())   // label: no-panic-is-transparent
 //@   ensures panicked("(*recoverHandlerInterceptor).WrapStreamingHandler$1.next", 1) ==> panicval("(*recoverHandlerInterceptor).WrapStreamingHandler$1.next", 1) != http.ErrAbortHandler && handleCalls() == old(handleCalls()) + 1 && handleArg() == panicval("(*recoverHandlerInterceptor).WrapStreamingHandler$1.next", 1) && retErr == callres("field:recoverHandlerInterceptor.handle", 1)   // label: panic-runs-the-recovery-function-once-with-the-value-and-returns-its-error
 //@   panicensures panicked("(*recoverHandlerInterceptor).WrapStreamingHandler$1.next", 1) && panicvalue == http.ErrAbortHandler && panicval("(*recoverHandlerInterceptor).WrapStreamingHandler$1.next", 1) == http.ErrAbortHandler && handleCalls() == old(handleCalls())   // label: abort-sentinel-is-re-raised-untouched
 
 //@ func (*recoverHandlerInterceptor).WrapUnary$1(ctx, req) (res, retErr)
-//@   tags C19
+//@   tags C19, C12
+//@   assert@call(field:recoverHandlerInterceptor.handle#1): arg0 == ctx && arg1.Procedure == callres("AnyRequest.Spec", 1).Procedure && arg1.StreamType == callres("AnyRequest.Spec", 1).StreamType && arg1.IsClient == callres("AnyRequest.Spec", 1).IsClient && arg2 == callres("AnyRequest.Header", 1)   // label: the-recovery-function-sees-the-call's-spec-and-request-headers   // tags: C12, C19
 //@   requires req != nil && deref(i) != nil && deref(next) != nil && deref(i).handle != nil
 //@   assigns everything, handleCalls(), handleArg()
 //@   ensures called("(*recoverHandlerInterceptor).WrapUnary$1.next", 1) ==> res == callres("(*recoverHandlerInterceptor).WrapUnary$1.next", 1, 0) && retErr == callres("(*recoverHandlerInterceptor).WrapUnary$1.next", 1, 1) && handleCalls() == old(handleCalls())   // label: client-side-is-transparent
@@ -1377,14 +1383,14 @@ package connect
 //@   requires response != nil && header != nil && trailer != nil && availableCompressors != nil && bufferPool != nil && protobuf != nil
 //@   assigns everything
 //@   ensures res != nil ==> asErr(res) == res && res.code != 0                                          // label: never-the-zero-code
-//@   ensures old(response.StatusCode) != 200 ==> res != nil && res.code == callres("grpcHTTPToCode", 1)   // label: non-200-takes-the-code-from-the-http-status
+//@   ensures old(response.StatusCode) != 200 ==> res != nil && res.code == grpcHTTPCode(old(response.StatusCode))   // label: non-200-takes-the-code-from-the-http-status
 
 //@ func (*connectStreamingClientConn).validateResponse(cc, response) res
 //@   tags C06, C09
 //@   requires cc != nil && response != nil && cc.responseHeader != nil && cc.compressionPools != nil
 //@   assigns everything
 //@   ensures res != nil ==> asErr(res) == res && res.code != 0                                          // label: never-the-zero-code
-//@   ensures old(response.StatusCode) != 200 ==> res != nil && res.code == callres("connectHTTPToCode", 1)   // label: non-200-takes-the-code-from-the-http-status
+//@   ensures old(response.StatusCode) != 200 ==> res != nil && res.code == connectHTTPCode(old(response.StatusCode))   // label: non-200-takes-the-code-from-the-http-status
 //@   ensures res == nil ==> cc.unmarshaler.envelopeReader.readMaxBytes == old(cc.unmarshaler.envelopeReader.readMaxBytes)   // label: keeps-the-read-limit   // tags: C09
 
 // ---------------------------------------------------------------------------
@@ -1425,11 +1431,12 @@ package connect
 //@ func (*grpcHandler).NewConn(g, responseWriter, request) (conn, ok)
 //@   tags C05, C07, C08, C09, C01
 //@   implements protocolHandler.NewConn
-//@   requires g != nil && responseWriter != nil && request != nil && g.protocolHandlerParams.CompressionPools != nil && g.protocolHandlerParams.Codecs != nil
+//@   requires g != nil && responseWriter != nil && request != nil && rwstatus(responseWriter) == 0 && g.protocolHandlerParams.CompressionPools != nil && g.protocolHandlerParams.Codecs != nil
 //@   assert@call(negotiateCompression#1): arg0 == g.protocolHandlerParams.CompressionPools && arg1 == hget(request.Header, "Grpc-Encoding") && arg2 == hget(request.Header, "Grpc-Accept-Encoding")   // label: negotiation-reads-the-request-encoding-and-the-accept-list-from-their-headers   // tags: C08, C07
 //@   assigns everything
-//@   ensures callres("negotiateCompression", 1, 2) != nil ==> !ok && called("handlerConnCloser.Close", 1)                 // label: failed-negotiation-closes-the-conn-with-the-error   // tags: C07, C08
-//@   ensures callres("negotiateCompression", 1, 2) == nil ==> ok && conn != nil                                            // label: successful-negotiation-yields-a-conn
+//@   ensures old(!g.web && request.ProtoMajor == 1 && request.ProtoMinor == 0) ==> !ok && rwstatus(responseWriter) == 505 && !called("negotiateCompression", 1)   // label: grpc-over-http-1.0-(no-trailers,-so-no-status)-is-refused-with-505   // tags: C07
+//@   ensures called("negotiateCompression", 1) && callres("negotiateCompression", 1, 2) != nil ==> !ok && called("handlerConnCloser.Close", 1)                 // label: failed-negotiation-closes-the-conn-with-the-error   // tags: C07, C08
+//@   ensures called("negotiateCompression", 1) && callres("negotiateCompression", 1, 2) == nil ==> ok && conn != nil                                            // label: successful-negotiation-yields-a-conn
 //@   assert@call(wrapHandlerConnWithCodedErrors#1): hdom(rwheader(responseWriter), "Content-Type") && hraw(rwheader(responseWriter), "Content-Type") == [hget(request.Header, "Content-Type")]   // label: content-type-echoes-the-request   // tags: C05
 //@   assert@call(wrapHandlerConnWithCodedErrors#1): let c := cast(arg0, "*grpcHandlerConn") in c.marshaler.envelopeWriter.compressMinBytes == g.protocolHandlerParams.CompressMinBytes && c.marshaler.envelopeWriter.writer == responseWriter && c.unmarshaler.envelopeReader.readMaxBytes == g.protocolHandlerParams.ReadMaxBytes && c.unmarshaler.envelopeReader.reader == request.Body && c.web == g.web && c.unmarshaler.web == g.web   // label: conn-carries-the-handler's-limits-and-threshold   // tags: C01, C07, C08, C09
 //@   assert@call(wrapHandlerConnWithCodedErrors#1): cast(arg0, "*grpcHandlerConn").marshaler.envelopeWriter.compressionPool != nil ==> hdom(rwheader(responseWriter), "Grpc-Encoding") && hraw(rwheader(responseWriter), "Grpc-Encoding") == [callres("negotiateCompression", 1, 1)] && callres("negotiateCompression", 1, 1) != "identity"   // label: compressed-flag-only-with-an-encoding-header   // tags: C05, C08
@@ -1451,8 +1458,9 @@ package connect
 //@   assigns mapof(header), mapvals(header)
 //@   ensures streamType == 0 ==> hdom(header, "Content-Encoding") == old(hdom(header, "Content-Encoding")) && hraw(header, "Content-Encoding") == old(hraw(header, "Content-Encoding"))   // label: unary-request-encoding-is-left-to-the-marshaler   // tags: C01, C05, C08
 //@   ensures streamType != 0 && c.protocolClientParams.CompressionName != "" && c.protocolClientParams.CompressionName != "identity" ==> hdom(header, "Connect-Content-Encoding") && hraw(header, "Connect-Content-Encoding") == [c.protocolClientParams.CompressionName]   // label: streaming-request-names-its-compression   // tags: C05, C08
-//@   ensures streamType != 0 && (c.protocolClientParams.CompressionName == "" || c.protocolClientParams.CompressionName == "identity") ==> hdom(header, "Connect-Content-Encoding") == old(hdom(header, "Connect-Content-Encoding"))   // label: no-compression-no-encoding-header   // tags: C05, C08
+//@   ensures streamType != 0 && (c.protocolClientParams.CompressionName == "" || c.protocolClientParams.CompressionName == "identity") ==> !hdom(header, "Connect-Content-Encoding")   // label: no-compression-no-header
 //@   ensures hdom(header, "Content-Type") && hraw(header, "Content-Type") == [callres("connectContentTypeFromCodecName", 1)]   // label: content-type-names-protocol-and-codec   // tags: C05
+//@   assert@call(connectContentTypeFromCodecName#1): arg0 == streamType && arg1 == callres("Codec.Name", 1)   // label: content-type-built-from-the-stream-type-and-the-codec's-name   // tags: C05, C12
 
 //@ constfield protocolClientParams.CompressionPools, protocolClientParams.Codec, protocolClientParams.BufferPool, protocolClientParams.HTTPClient, protocolClientParams.Protobuf, protocolClientParams.ReadMaxBytes, protocolClientParams.CompressMinBytes, protocolClientParams.CompressionName, protocolClientParams.URL
 //@ func (*duplexHTTPCall).SetValidateResponse(d, validate)
@@ -1660,7 +1668,7 @@ package connect
 //@   requires hdrOf(hc.responseWriter) != hc.responseTrailer && (err != nil && coded(err) ==> asErr(err).meta != hdrOf(hc.responseWriter))
 //@   assigns everything
 //@   ensures err != nil && old(rwstatus(hc.responseWriter)) == 0 ==> 400 <= rwstatus(hc.responseWriter) && rwstatus(hc.responseWriter) <= 599   // label: a-failed-unary-call-never-has-a-2xx-status
-//@   assert@call(http.ResponseWriter.WriteHeader#1): arg1 == callres("connectCodeToHTTP", 1) && (coded(err) ==> callres("CodeOf", 1) == codeOf(err)) && (!coded(err) ==> callres("CodeOf", 1) == 2)   // label: status-derived-from-the-error's-code
+//@   assert@call(http.ResponseWriter.WriteHeader#1): (coded(err) ==> arg1 == connectHTTPStatus(codeOf(err))) && (!coded(err) ==> arg1 == 500)   // label: status-derived-from-the-error's-code
 //@   assert@call(json.Marshal#1): coded(err) ==> boxed(arg0) == asErr(err)   // label: body-is-the-wire-form-of-the-error-itself
 //@   assert@call(json.Marshal#1): !coded(err) ==> boxed(arg0) != nil && fresh(boxed(arg0)) && cast(boxed(arg0), "*Error").code == 2 && cast(boxed(arg0), "*Error").err == err   // label: plain-error-is-sent-as-unknown-with-its-text
 //@   assert@call(http.ResponseWriter.Write#1): seq(arg1) == seq(callres("json.Marshal", 1, 0))   // label: body-is-the-marshalled-error
@@ -1881,22 +1889,26 @@ package connect
 //@   assigns everything
 //@   ensures translated(callres("StreamingClientConn.Send", 1), err)   // label: users-see-the-inner-error-coded
 //@   ensures callres("StreamingClientConn.Send", 1) != nil ==> (Is(err, io.EOF) <==> Is(callres("StreamingClientConn.Send", 1), io.EOF))   // label: the-write-side-eof-stays-recognisable   // tags: C02, C04
+//@   assert@call(StreamingClientConn.Send#1): arg0 == cc.StreamingClientConn   // label: delegates-to-the-wrapped-connection
 //@ func (*errorTranslatingClientConn).Receive(cc, msg) err
 //@   tags C02, C15, C06, C04
 //@   requires cc != nil && cc.StreamingClientConn != nil
 //@   assigns everything
 //@   ensures translated(callres("StreamingClientConn.Receive", 1), err)   // label: users-see-the-inner-error-coded
 //@   ensures callres("StreamingClientConn.Receive", 1) != nil ==> (Is(err, io.EOF) <==> Is(callres("StreamingClientConn.Receive", 1), io.EOF))   // label: end-of-stream-stays-recognisable   // tags: C04
+//@   assert@call(StreamingClientConn.Receive#1): arg0 == cc.StreamingClientConn   // label: delegates-to-the-wrapped-connection
 //@ func (*errorTranslatingClientConn).CloseRequest(cc) err
 //@   tags C02, C15, C06
 //@   requires cc != nil && cc.StreamingClientConn != nil
 //@   assigns everything
 //@   ensures translated(callres("StreamingClientConn.CloseRequest", 1), err)
+//@   assert@call(StreamingClientConn.CloseRequest#1): arg0 == cc.StreamingClientConn   // label: delegates-to-the-wrapped-connection
 //@ func (*errorTranslatingClientConn).CloseResponse(cc) err
 //@   tags C02, C15, C06
 //@   requires cc != nil && cc.StreamingClientConn != nil
 //@   assigns everything
 //@   ensures translated(callres("StreamingClientConn.CloseResponse", 1), err)
+//@   assert@call(StreamingClientConn.CloseResponse#1): arg0 == cc.StreamingClientConn   // label: delegates-to-the-wrapped-connection
 //@ constfield errorTranslatingHandlerConnCloser.toWire, errorTranslatingHandlerConnCloser.fromWire, errorTranslatingHandlerConnCloser.handlerConnCloser, errorTranslatingClientConn.fromWire, errorTranslatingClientConn.StreamingClientConn
 //@ typeinv *errorTranslatingHandlerConnCloser v by wrapHandlerConnWithCodedErrors: v.toWire != nil && v.fromWire != nil
 //@ typeinv *errorTranslatingClientConn v by wrapClientConnWithCodedErrors: v.fromWire != nil
@@ -1954,6 +1966,7 @@ package connect
 //@   assigns everything
 //@   ensures old(c.err) != nil ==> !res && c.err == old(c.err) && !called("StreamingHandlerConn.Receive", 1)   // label: after-the-first-error-nothing-more-is-read
 //@   ensures old(c.err) == nil ==> called("StreamingHandlerConn.Receive", 1) && res == (callres("StreamingHandlerConn.Receive", 1) == nil)   // label: one-receive-per-call
+//@   assert@call(StreamingHandlerConn.Receive#1): arg0 == c.conn   // label: the-view-delegates-to-its-own-connection
 //@ func (*ClientStream).Err(c) res
 //@   tags C04, C07
 //@   requires c != nil
@@ -1967,6 +1980,7 @@ package connect
 //@   assigns everything
 //@   ensures old(s.constructErr) != nil || old(s.receiveErr) != nil ==> !res && !called("StreamingClientConn.Receive", 1)   // label: after-the-first-error-nothing-more-is-read
 //@   ensures old(s.constructErr) == nil && old(s.receiveErr) == nil ==> called("StreamingClientConn.Receive", 1) && res == (callres("StreamingClientConn.Receive", 1) == nil)   // label: one-receive-per-call
+//@   assert@call(StreamingClientConn.Receive#1): arg0 == s.conn   // label: the-view-delegates-to-its-own-connection
 //@ func (*ServerStreamForClient).Err(s) res
 //@   tags C04, C06
 //@   requires s != nil
@@ -1989,6 +2003,7 @@ package connect
 //@   ensures old(c.err) != nil ==> err == old(c.err) && res == nil
 //@   ensures called("receiveUnaryResponse", 1) && callres("receiveUnaryResponse", 1, 1) != nil ==> err == callres("receiveUnaryResponse", 1, 1) && res == nil   // label: the-server's-error-is-returned-never-a-response
 //@   ensures called("StreamingClientConn.CloseRequest", 1) && callres("StreamingClientConn.CloseRequest", 1) != nil ==> err == callres("StreamingClientConn.CloseRequest", 1) && res == nil
+//@   assert@call(StreamingClientConn.CloseRequest#1): arg0 == c.conn   // label: the-view-delegates-to-its-own-connection
 
 //@ func (*BidiStreamForClient).Send(b, msg) res
 //@   tags C01
@@ -2004,6 +2019,7 @@ package connect
 //@   ensures old(b.err) != nil ==> err == old(b.err) && res == nil
 //@   ensures old(b.err) == nil && callres("StreamingClientConn.Receive", 1) != nil ==> err == callres("StreamingClientConn.Receive", 1) && res == nil   // label: a-failed-receive-delivers-no-message
 //@   ensures old(b.err) == nil && callres("StreamingClientConn.Receive", 1) == nil ==> err == nil && res != nil
+//@   assert@call(StreamingClientConn.Receive#1): arg0 == b.conn   // label: the-view-delegates-to-its-own-connection
 
 //@ func (*ServerStream).Send(s, msg) res
 //@   tags C01
@@ -2017,6 +2033,7 @@ package connect
 //@   assigns everything
 //@   ensures callres("StreamingHandlerConn.Receive", 1) != nil ==> err == callres("StreamingHandlerConn.Receive", 1) && res == nil   // label: a-failed-receive-delivers-no-message
 //@   ensures callres("StreamingHandlerConn.Receive", 1) == nil ==> err == nil && res != nil
+//@   assert@call(StreamingHandlerConn.Receive#1): arg0 == b.conn   // label: the-view-delegates-to-its-own-connection
 //@ func (*BidiStream).Send(b, msg) res
 //@   tags C01
 //@   requires b != nil && b.conn != nil
@@ -2143,7 +2160,8 @@ package connect
 //@   assigns out(m.writer), mapof(m.header), mapvals(m.header)
 //@   ensures res == nil ==> (let d := menc(m.codec, mval(message)) in (if |d| < m.compressMinBytes || m.compressionPool == nil then out(m.writer) == old(out(m.writer)) ++ d else out(m.writer) == old(out(m.writer)) ++ compBy(m.compressionPool.compressors, d)))   // label: body-is-the-encoded-message-compressed-iff-negotiated-and-large-enough
 //@   ensures res == nil && !(|menc(m.codec, mval(message))| < m.compressMinBytes || m.compressionPool == nil) ==> hvals(m.header, "Content-Encoding") == [m.compressionName]   // label: a-compressed-body-is-labelled   // tags: C05, C08
-//@   ensures |menc(m.codec, mval(message))| < m.compressMinBytes || m.compressionPool == nil ==> (forall k seq :: {mapval(m.header, k)} mapdom(m.header, k) == old(mapdom(m.header, k)) && mapval(m.header, k) == old(mapval(m.header, k)))   // label: an-uncompressed-body-is-not-labelled   // tags: C05, C08
+//@   ensures res == nil && (|menc(m.codec, mval(message))| < m.compressMinBytes || m.compressionPool == nil) ==> !hdom(m.header, "Content-Encoding")   // label: an-uncompressed-body-is-not-labelled-whatever-the-header-map-held   // tags: C05, C08
+//@   ensures forall k seq :: {mapval(m.header, k)} {mapdom(m.header, k)} k != "Content-Encoding" ==> mapdom(m.header, k) == old(mapdom(m.header, k)) && mapval(m.header, k) == old(mapval(m.header, k))   // label: no-other-header-is-touched
 //@   ensures res != nil ==> coded(res)
 
 // ---------------------------------------------------------------------------
@@ -2223,7 +2241,7 @@ package connect
 //@   ensures hdom(header, "Content-Type") && hraw(header, "Content-Type") == [callres("grpcContentTypeFromCodecName", 1)]   // label: content-type-names-protocol-and-codec
 //@   ensures hdom(header, "Accept-Encoding") && hraw(header, "Accept-Encoding") == ["identity"]   // label: no-transport-level-compression
 //@   ensures g.protocolClientParams.CompressionName != "" && g.protocolClientParams.CompressionName != "identity" ==> hdom(header, "Grpc-Encoding") && hraw(header, "Grpc-Encoding") == [g.protocolClientParams.CompressionName]   // label: request-compression-announced
-//@   ensures (g.protocolClientParams.CompressionName == "" || g.protocolClientParams.CompressionName == "identity") ==> hdom(header, "Grpc-Encoding") == old(hdom(header, "Grpc-Encoding"))   // label: no-compression-no-header
+//@   ensures (g.protocolClientParams.CompressionName == "" || g.protocolClientParams.CompressionName == "identity") ==> !hdom(header, "Grpc-Encoding")   // label: no-compression-no-header
 //@   ensures !g.web ==> hdom(header, "Te") && hraw(header, "Te") == ["trailers"]   // label: grpc-asks-for-trailers
 //@   assert@call(grpcContentTypeFromCodecName#1): arg0 == g.web && arg1 == callres("Codec.Name", 1)
 
@@ -2435,61 +2453,73 @@ package connect
 //@   requires c != nil && c.conn != nil
 //@   assigns nothing
 //@   ensures res == callres("StreamingHandlerConn.RequestHeader", 1)
+//@   assert@call(StreamingHandlerConn.RequestHeader#1): arg0 == c.conn   // label: the-view-delegates-to-its-own-connection
 //@ func (*ServerStream).ResponseHeader(s) res
 //@   tags C11
 //@   requires s != nil && s.conn != nil
 //@   assigns nothing
 //@   ensures res == callres("StreamingHandlerConn.ResponseHeader", 1)   // label: headers-not-trailers
+//@   assert@call(StreamingHandlerConn.ResponseHeader#1): arg0 == s.conn   // label: the-view-delegates-to-its-own-connection
 //@ func (*ServerStream).ResponseTrailer(s) res
 //@   tags C11
 //@   requires s != nil && s.conn != nil
 //@   assigns nothing
 //@   ensures res == callres("StreamingHandlerConn.ResponseTrailer", 1)   // label: trailers-not-headers
+//@   assert@call(StreamingHandlerConn.ResponseTrailer#1): arg0 == s.conn   // label: the-view-delegates-to-its-own-connection
 //@ func (*BidiStream).RequestHeader(b) res
 //@   tags C11
 //@   requires b != nil && b.conn != nil
 //@   assigns nothing
 //@   ensures res == callres("StreamingHandlerConn.RequestHeader", 1)
+//@   assert@call(StreamingHandlerConn.RequestHeader#1): arg0 == b.conn   // label: the-view-delegates-to-its-own-connection
 //@ func (*BidiStream).ResponseHeader(b) res
 //@   tags C11
 //@   requires b != nil && b.conn != nil
 //@   assigns nothing
 //@   ensures res == callres("StreamingHandlerConn.ResponseHeader", 1)   // label: headers-not-trailers
+//@   assert@call(StreamingHandlerConn.ResponseHeader#1): arg0 == b.conn   // label: the-view-delegates-to-its-own-connection
 //@ func (*BidiStream).ResponseTrailer(b) res
 //@   tags C11
 //@   requires b != nil && b.conn != nil
 //@   assigns nothing
 //@   ensures res == callres("StreamingHandlerConn.ResponseTrailer", 1)   // label: trailers-not-headers
+//@   assert@call(StreamingHandlerConn.ResponseTrailer#1): arg0 == b.conn   // label: the-view-delegates-to-its-own-connection
 //@ func (*ServerStreamForClient).ResponseHeader(s) res
 //@   tags C11
 //@   requires s != nil && (s.constructErr == nil ==> s.conn != nil)
 //@   assigns nothing
 //@   ensures s.constructErr == nil ==> res == callres("StreamingClientConn.ResponseHeader", 1)   // label: headers-not-trailers
+//@   assert@call(StreamingClientConn.ResponseHeader#1): arg0 == s.conn   // label: the-view-delegates-to-its-own-connection
 //@ func (*ServerStreamForClient).ResponseTrailer(s) res
 //@   tags C11
 //@   requires s != nil && (s.constructErr == nil ==> s.conn != nil)
 //@   assigns nothing
 //@   ensures s.constructErr == nil ==> res == callres("StreamingClientConn.ResponseTrailer", 1)   // label: trailers-not-headers
+//@   assert@call(StreamingClientConn.ResponseTrailer#1): arg0 == s.conn   // label: the-view-delegates-to-its-own-connection
 //@ func (*BidiStreamForClient).ResponseHeader(b) res
 //@   tags C11
 //@   requires b != nil && (b.err == nil ==> b.conn != nil)
 //@   assigns nothing
 //@   ensures b.err == nil ==> res == callres("StreamingClientConn.ResponseHeader", 1)   // label: headers-not-trailers
+//@   assert@call(StreamingClientConn.ResponseHeader#1): arg0 == b.conn   // label: the-view-delegates-to-its-own-connection
 //@ func (*BidiStreamForClient).ResponseTrailer(b) res
 //@   tags C11
 //@   requires b != nil && (b.err == nil ==> b.conn != nil)
 //@   assigns nothing
 //@   ensures b.err == nil ==> res == callres("StreamingClientConn.ResponseTrailer", 1)   // label: trailers-not-headers
+//@   assert@call(StreamingClientConn.ResponseTrailer#1): arg0 == b.conn   // label: the-view-delegates-to-its-own-connection
 //@ func (*BidiStreamForClient).RequestHeader(b) res
 //@   tags C11
 //@   requires b != nil && (b.err == nil ==> b.conn != nil)
 //@   assigns nothing
 //@   ensures b.err == nil ==> res == callres("StreamingClientConn.RequestHeader", 1)
+//@   assert@call(StreamingClientConn.RequestHeader#1): arg0 == b.conn   // label: the-view-delegates-to-its-own-connection
 //@ func (*ClientStreamForClient).RequestHeader(c) res
 //@   tags C11
 //@   requires c != nil && (c.err == nil ==> c.conn != nil)
 //@   assigns nothing
 //@   ensures c.err == nil ==> res == callres("StreamingClientConn.RequestHeader", 1)
+//@   assert@call(StreamingClientConn.RequestHeader#1): arg0 == c.conn   // label: the-view-delegates-to-its-own-connection
 
 // option.go: the remaining options set exactly what they say (C08: request
 // compression name and the registered pools; C05/C12: protocol choice)
@@ -2609,16 +2639,19 @@ package connect
 //@   requires cc != nil && cc.duplexCall != nil && cc.duplexCall.requestBodyWriter != nil
 //@   assigns nothing
 //@   ensures err == callres("(*duplexHTTPCall).CloseWrite", 1)
+//@   assert@call((*duplexHTTPCall).CloseWrite#1): arg0 == cc.duplexCall   // label: closes-its-own-call
 //@ func (*connectStreamingClientConn).CloseRequest(cc) err
 //@   tags C04
 //@   requires cc != nil && cc.duplexCall != nil && cc.duplexCall.requestBodyWriter != nil
 //@   assigns nothing
 //@   ensures err == callres("(*duplexHTTPCall).CloseWrite", 1)
+//@   assert@call((*duplexHTTPCall).CloseWrite#1): arg0 == cc.duplexCall   // label: closes-its-own-call
 //@ func (*grpcClientConn).CloseRequest(cc) err
 //@   tags C04
 //@   requires cc != nil && cc.duplexCall != nil && cc.duplexCall.requestBodyWriter != nil
 //@   assigns nothing
 //@   ensures err == callres("(*duplexHTTPCall).CloseWrite", 1)
+//@   assert@call((*duplexHTTPCall).CloseWrite#1): arg0 == cc.duplexCall   // label: closes-its-own-call
 
 // the handler conns' Receive: the unmarshaler's verdict, success as a true nil
 //@ func (*connectUnaryHandlerConn).Receive(hc, msg) err
@@ -2705,16 +2738,19 @@ package connect
 //@   requires cc != nil && cc.duplexCall != nil && cc.duplexCall.ctx != nil && (cc.duplexCall.response != nil ==> cc.duplexCall.response.Body != nil)
 //@   assigns everything
 //@   ensures err == callres("(*duplexHTTPCall).CloseRead", 1)
+//@   assert@call((*duplexHTTPCall).CloseRead#1): arg0 == cc.duplexCall   // label: closes-its-own-call
 //@ func (*connectStreamingClientConn).CloseResponse(cc) err
 //@   tags C04
 //@   requires cc != nil && cc.duplexCall != nil && cc.duplexCall.ctx != nil && (cc.duplexCall.response != nil ==> cc.duplexCall.response.Body != nil)
 //@   assigns everything
 //@   ensures err == callres("(*duplexHTTPCall).CloseRead", 1)
+//@   assert@call((*duplexHTTPCall).CloseRead#1): arg0 == cc.duplexCall   // label: closes-its-own-call
 //@ func (*grpcClientConn).CloseResponse(cc) err
 //@   tags C04
 //@   requires cc != nil && cc.duplexCall != nil && cc.duplexCall.ctx != nil && (cc.duplexCall.response != nil ==> cc.duplexCall.response.Body != nil)
 //@   assigns everything
 //@   ensures err == callres("(*duplexHTTPCall).CloseRead", 1)
+//@   assert@call((*duplexHTTPCall).CloseRead#1): arg0 == cc.duplexCall   // label: closes-its-own-call
 
 // remaining typed views
 //@ func (*ServerStreamForClient).Close(s) err
@@ -2723,18 +2759,21 @@ package connect
 //@   assigns everything
 //@   ensures old(s.constructErr) != nil ==> err == old(s.constructErr)
 //@   ensures old(s.constructErr) == nil ==> err == callres("StreamingClientConn.CloseResponse", 1)
+//@   assert@call(StreamingClientConn.CloseResponse#1): arg0 == s.conn   // label: the-view-delegates-to-its-own-connection
 //@ func (*BidiStreamForClient).CloseRequest(b) err
 //@   tags C04
 //@   requires b != nil && (b.err == nil ==> b.conn != nil)
 //@   assigns everything
 //@   ensures old(b.err) != nil ==> err == old(b.err)
 //@   ensures old(b.err) == nil ==> err == callres("StreamingClientConn.CloseRequest", 1)
+//@   assert@call(StreamingClientConn.CloseRequest#1): arg0 == b.conn   // label: the-view-delegates-to-its-own-connection
 //@ func (*BidiStreamForClient).CloseResponse(b) err
 //@   tags C04
 //@   requires b != nil && (b.err == nil ==> b.conn != nil)
 //@   assigns everything
 //@   ensures old(b.err) != nil ==> err == old(b.err)
 //@   ensures old(b.err) == nil ==> err == callres("StreamingClientConn.CloseResponse", 1)
+//@   assert@call(StreamingClientConn.CloseResponse#1): arg0 == b.conn   // label: the-view-delegates-to-its-own-connection
 
 // option.go / compression.go / codec.go: the rest
 //@ func (*codecOption).applyToHandler(o, config)
